@@ -100,3 +100,19 @@ def rand_abstract(rng, ncmds, nvars, novar=False, codes=(1, 2, 126, 127, 128, 20
     before = [res(0.25) for _ in range(rng.choice([0, 0, 1, 2]))]
     after = [res(0.3) for _ in range(rng.choice([0, 0, 1, 2]))]
     return {"cond": cond, "before": before, "jobs": jobs, "after": after, "allow": rng.random() < 0.5, "novar": novar}
+
+
+def to_config_task(a):
+    """the abstract task as a `tasks:` entry of a configuration file (trace file: $PROJ/out)"""
+    t = to_trtask(a)
+    fix = lambda x: x.replace('"$TRACE"', '"$PROJ/out"')
+    d = {"command": [fix(c) for c in t["commands"]], "allow_failure": bool(a["allow"])}
+    if t["before"]:
+        d["before"] = [fix(c) for c in t["before"]]
+    if t["after"]:
+        d["after"] = [fix(c) for c in t["after"]]
+    if t["condition"]:
+        d["condition"] = fix(t["condition"])
+    if t.get("variations"):
+        d["variations"] = t["variations"]
+    return d
